@@ -3,6 +3,7 @@ package props
 import (
 	"fmt"
 	"go/token"
+	"go/types"
 	"path/filepath"
 	"strings"
 
@@ -96,6 +97,7 @@ func runC12(c *Ctx) {
 	// AUTHORS.txt would be missing)
 	{
 		nG, bad := 0, ""
+		nCls, badCls := 0, ""
 		for _, f := range fns {
 			for _, b := range f.Blocks {
 				ifi, ok := b.Instrs[len(b.Instrs)-1].(*ssa.If)
@@ -126,6 +128,55 @@ func runC12(c *Ctx) {
 					continue
 				}
 				nG++
+				// R12.13: a file that is left out leaves no trace in the classifier: inside the loop, every call that is
+				// handed the classifier (or something loaded from it) stands behind the "enough segments" side of the test
+				{
+					enough := b.Succs[0]
+					if enough == few {
+						enough = b.Succs[1]
+					}
+					isCls := func(v ssa.Value) bool {
+						v = core.Unspill(v)
+						if ld, ok := v.(*ssa.UnOp); ok && ld.Op == token.MUL {
+							if fa, ok := ld.X.(*ssa.FieldAddr); ok {
+								v = core.Unspill(fa.X)
+							}
+						}
+						pt, ok := v.Type().(*types.Pointer)
+						if !ok {
+							return false
+						}
+						nm, ok := pt.Elem().(*types.Named)
+						return ok && nm.Obj().Name() == "Classifier" && nm.Obj().Pkg() != nil && nm.Obj().Pkg().Path() == v2pkg
+					}
+					for _, bb := range f.Blocks {
+						if !(bb == b || (reaches(bb, b) && reaches(b, bb))) {
+							continue
+						}
+						for _, call := range core.CallsIn(bb.Parent()) {
+							if call.Block() != bb {
+								continue
+							}
+							g := call.Common().StaticCallee()
+							if g == nil || core.FuncPkgPath(g) != v2pkg || isTraceFn(g) {
+								continue
+							}
+							takes := false
+							for _, a := range call.Common().Args {
+								if isCls(a) {
+									takes = true
+								}
+							}
+							if !takes {
+								continue
+							}
+							nCls++
+							if !(enough.Dominates(bb) && enough != b) && badCls == "" {
+								badCls = core.ShortFn(g) + " at " + p.Pos(call.Pos())
+							}
+						}
+					}
+				}
 				seen := map[*ssa.BasicBlock]bool{}
 				for x := few; x != nil && !seen[x]; {
 					seen[x] = true
@@ -149,6 +200,8 @@ func runC12(c *Ctx) {
 		c.R.Check(bad == "", "R12.12", "LoadLicenses: a path with fewer than three segments is skipped, not an error", p.Pos(ll.Pos()), fmt.Sprintf("%d tests of the number of path segments", nG),
 			"the branch for a path with too few segments returns an error in "+bad+": one stray file above the category/name/variant depth ends the load, and the licenses walked after it are missing")
 		c.R.RequireMin("R12.12", "tests of the number of path segments", nG, 1)
+		c.R.Check(badCls == "", "R12.13", "LoadLicenses: a file with too few path segments leaves no trace in the classifier", p.Pos(ll.Pos()), fmt.Sprintf("%d calls in the loop over the files that are handed the classifier, each behind the test of the number of segments", nCls),
+			"the classifier is handed to "+badCls+" before the number of path segments is tested: a file that is then left out has already put its words into the classifier's dictionary (or more), so inputs are tokenized differently than with a classifier built by AddContent per file")
 	}
 
 	// R12.11: what is opened for one file of the corpus is released before the next file is looked at: no deferred call is
